@@ -121,8 +121,11 @@ def OVR(m, i: tm.T) -> tm.T:
 
 
 def ovr_name_tok_t(t: tm.T) -> tm.T:
-    """Token of an override *name* (the real encoding: see StepHash.from_inp)."""
-    return tok_str_t(t)
+    """Token of an override *name*: a bytes word holding the UTF-8 name.
+
+    (Until the repair of finding F1 this was a str word, for which the lemma
+    C13/lemma/envpair_vs_overrides_keyword has a counter-model.)"""
+    return tok_bytes_t(sym.utf8(t))
 
 
 def OVR_unfold(m: SymMap, i: tm.T):
